@@ -109,6 +109,18 @@ def r_typed_extract(cx):
                   "a malformed %s value is rejected with BadParam" % v.lower() if bads else
                   "the %s arm of ParsedParameters::new has no BadParam error return any more: a malformed value is "
                   "silently replaced (by the default) or reported as missing" % v, cx.where(f.term(a)["span"]))
+        # a required parameter (default: None) that is not given is an error: the arm can return MissingParam
+        if v != "Flag":
+            miss = [bb for bb, i, st in f.all_stmts() if st["k"] == "assign" and st["rv"]["k"] == "agg" and
+                    st["rv"].get("adt") == "Error" and st["rv"].get("vname") == "MissingParam" and f.dominates(a, bb)]
+            for h in sorted(helpers):
+                g = cx.f.fn(h)
+                miss += [bb for bb, i, st in g.all_stmts() if st["k"] == "assign" and st["rv"]["k"] == "agg" and
+                         st["rv"].get("adt") == "Error" and st["rv"].get("vname") == "MissingParam"]
+            cx.ob("R-TYPED-EXTRACT", "demands/%s" % v, bool(miss),
+                  "a required %s parameter that is not given is reported with MissingParam" % v.lower() if miss else
+                  "the %s arm of ParsedParameters::new has no MissingParam error return any more: a required parameter "
+                  "(default: None) that is not given is silently treated as empty / absent" % v, cx.where(f.term(a)["span"]))
         # the stored value is the parser's result itself (no lossy conversion between parser and table)
         if v in ("Natural", "Integer"):
             for bb, t in f.calls():
@@ -227,4 +239,63 @@ def r_split_exhaustive(cx):
                       "never looked at, so an over-long value is accepted as its first parts" % (short, cut[0].rstrip("<")),
                       cx.where(f.term(lp.header)["span"]))
             k += 1
+    # (c) white space is white space: the tokenizer (normalize, split_into_steps, split_into_parameters ...) collapses and
+    # splits at Unicode white space throughout - a pass that only knows ASCII blanks leaves a no-break space glued to a
+    # token, where a later pass then sees a separator: normalisation is no longer idempotent
+    kinds = {}
+    for name in sorted(cx.f.lib["fns"]):
+        if "::tests::" in name or not name.startswith(("<T as token::Tokenize>::", "token::")):
+            continue
+        f = cx.f.fn(name)
+        for bb, t in f.calls():
+            tail = (f.callee(t) or "").rsplit("::", 1)[-1]
+            if tail in ("split_whitespace", "split_ascii_whitespace"):
+                kinds.setdefault(tail, []).append((name, t))
+    if kinds:
+        ascii_ = kinds.get("split_ascii_whitespace", [])
+        cx.ob("R-SPLIT-EXHAUSTIVE", "tokenizer/whitespace-kind", not ascii_ or "split_whitespace" not in kinds,
+              "the tokenizer splits at the same kind of white space throughout (%d sites)" % sum(len(v) for v in kinds.values())
+              if not ascii_ or "split_whitespace" not in kinds else
+              "%s splits at ASCII white space only while the rest of the tokenizer splits at Unicode white space: a definition "
+              "spelled with a no-break (or other non-ASCII) space normalizes differently from the ordinary-space spelling, and "
+              "normalisation is not idempotent" % ascii_[0][0], cx.where(ascii_[0][1]["span"]) if ascii_ else None)
     cx.count("R-SPLIT-EXHAUSTIVE", "splits", n)
+
+
+@rule("R-SEXAGESIMAL-REFUSALS", ["C16", "C19"])
+def r_sexagesimal_refusals(cx):
+    """parse_sexagesimal turns `d:m:s` text into the value written: NaN (which the typed extraction turns into BadParam) is
+    returned for text that is not a number - empty, a part that does not parse, too many parts - and never because of
+    the *size* of a part: `12:30:59.5`, `0:59.75` are ordinary angles. No NaN result of the function is decided by a
+    comparison of a parsed value with constants (a range check like `(0.0..=59.0).contains(&v)`)."""
+    import elems as E
+    import guards
+    name = "math::angular::parse_sexagesimal"
+    if not cx.f.has_fn(name):
+        cx.ob("R-SEXAGESIMAL-REFUSALS", "anchor", False, "anchor-missing: %s" % name)
+        return
+    f = cx.f.fn(name)
+    n = 0
+    for bb, i, st in f.all_stmts():
+        if not (st["k"] == "assign" and st["place"]["l"] == 0 and not st["place"]["p"] and st["rv"]["k"] == "use"):
+            continue
+        v = mir.strip_refs(f.rvalue(st["rv"], (bb, i)))
+        if not (v[0] == "const" and isinstance(v[2], tuple) and str(v[2][-1]).lower() == "nan"):
+            continue
+        n += 1
+        bad = None
+        for at, tv in guards.branch_facts(f, bb):
+            at = mir.strip_refs(at)
+            parsed = []
+            mir.walk(at, lambda y: (parsed.append(1) if y[0] == "call" and isinstance(y[1], str) and y[1].endswith("str>::parse") else None) or True)
+            if not parsed:
+                continue
+            if at[0] == "bin" and at[1] in ("Lt", "Le", "Gt", "Ge"):
+                bad = "a comparison of a parsed part with a constant"
+            if at[0] == "call" and isinstance(at[1], str) and at[1].endswith("::contains") and "Range" in at[1]:
+                bad = "a range test of a parsed part"
+        cx.ob("R-SEXAGESIMAL-REFUSALS", "nan%d" % (n - 1), bad is None,
+              "this NaN result is decided by the form of the text" if bad is None else
+              "parse_sexagesimal returns NaN on %s: well-formed angles whose minutes or seconds fall outside that range "
+              "(59.5 seconds) are rejected as malformed" % bad, cx.where(st.get("span")))
+    cx.count("R-SEXAGESIMAL-REFUSALS", "nan_results", n)
